@@ -87,8 +87,23 @@ def val(b, n, depth=12):
             return v(n["then"])
         if c["k"] == "Lit" and c.get("v") is False:
             return v(n["else"]) if "else" in n else ("unit",)
-        return ("if", b.canon(n["cond"], 8), v(n["then"]), v(n["else"]) if "else" in n else ("unit",))
+        th, el = v(n["then"]), (v(n["else"]) if "else" in n else ("unit",))
+        while c["k"] == "Unary" and c.get("op") == "!":
+            c = strip(c["e"])
+            th, el = el, th
+        return ("if", b.canon(c, 8), th, el)
     if k == "Match":
+        if b.ty(strip(n["scrut"])) == "bool" and len(n["arms"]) == 2 and not any("guard" in a for a in n["arms"]):
+            # `match flag { true => a, false => b }` (or with `_`) is an `if`
+            alts = [pat_alts(a["pat"]) for a in n["arms"]]
+            if alts[0] in ([("lit", True)], [("lit", False)]) and alts[1] in ([("lit", True)], [("lit", False)], ["_"]):
+                first_true = alts[0] == [("lit", True)]
+                th, el = (v(n["arms"][0]["body"]), v(n["arms"][1]["body"])) if first_true else (v(n["arms"][1]["body"]), v(n["arms"][0]["body"]))
+                c = strip(n["scrut"])
+                while c["k"] == "Unary" and c.get("op") == "!":
+                    c = strip(c["e"])
+                    th, el = el, th
+                return ("if", b.canon(c, 8), th, el)
         return ("match", b.canon(n["scrut"], 8),
                 tuple((tuple(pat_alts(a["pat"])), b.canon(a["guard"], 8) if "guard" in a else None, v(a["body"])) for a in n["arms"]))
     if k == "Ret":
